@@ -128,6 +128,7 @@ type Contracts struct {
 	Regions  map[string]string // type name -> region
 	PureNames map[string]*FuncContract
 	Guarded  map[string]string // field key "T.f" -> mutex field "T.m"
+	Sinks          map[string][]string
 	FreshOnlyTypes []string
 	FreshOnlyProps map[string][]string
 	Counted  map[string]bool   // callees named in a calls("...") expression somewhere in the contracts
@@ -144,7 +145,7 @@ var countedRe = regexp.MustCompile(`calls\("([^"]+)"\)`)
 
 func ParseContractsFile(path string) (*Contracts, error) {
 	cs := &Contracts{Path: path, Funcs: map[string]*FuncContract{}, TypeInvs: map[string]*TypeInv{},
-		Specs: map[string]*SpecFn{}, Ghosts: map[string]*GhostVar{}, Regions: map[string]string{}, PureNames: map[string]*FuncContract{}, Guarded: map[string]string{}, Counted: map[string]bool{}, FreshOnlyProps: map[string][]string{}, Monotone: map[string]bool{}, Preserved: map[string][]string{}, Callers: map[string][]string{}, CallersProps: map[string][]string{}, Writers: map[string][]string{}, WritersProps: map[string][]string{}}
+		Specs: map[string]*SpecFn{}, Ghosts: map[string]*GhostVar{}, Regions: map[string]string{}, PureNames: map[string]*FuncContract{}, Guarded: map[string]string{}, Counted: map[string]bool{}, Sinks: map[string][]string{}, FreshOnlyProps: map[string][]string{}, Monotone: map[string]bool{}, Preserved: map[string][]string{}, Callers: map[string][]string{}, CallersProps: map[string][]string{}, Writers: map[string][]string{}, WritersProps: map[string][]string{}}
 	f, err := os.Open(path)
 	if err != nil {
 		if os.IsNotExist(err) {
@@ -379,6 +380,14 @@ func ParseContractsFile(path string) (*Contracts, error) {
 			}
 			cs.Callers[fsx[0]] = fsx[1:]
 			cs.CallersProps[fsx[0]] = props
+			cur, curType = nil, nil
+		case "sinks":
+			// sinks {props} callee... : every call to one of the callees must be classified by an
+			// `at <callee> requires` clause of the calling function
+			props, r := parseProps(rest)
+			for _, n := range strings.Fields(r) {
+				cs.Sinks[n] = props
+			}
 			cur, curType = nil, nil
 		case "freshonly":
 			// freshonly {props} T [T...] : every field of the struct types is written only on objects the
